@@ -36,9 +36,18 @@ func thresholdTrace(job []byte, out *Out) error {
 				k = j.Batch
 			}
 			ts := make([]int, k)
-			for i := 0; i < k; i++ {
-				ts[i] = detect.Threshold(s0 + i)
-			}
+			func() {
+				defer func() {
+					if p := recover(); p != nil {
+						for i := range ts {
+							ts[i] = -1 // a crash is recorded as an impossible threshold
+						}
+					}
+				}()
+				for i := 0; i < k; i++ {
+					ts[i] = detect.Threshold(s0 + i)
+				}
+			}()
 			out.Emit(map[string]interface{}{"ev": "threshold", "s0": s0, "ts": ts})
 			s0 += k
 			cnt -= k
@@ -153,18 +162,27 @@ func thresholdQTrace(job []byte, out *Out) error {
 				qs[i] = (float64(rng.Intn(3)) + rng.Float64()) / 10
 			}
 		}
-		v := detect.ThresholdQ(qs)
 		ss := make([]string, n)
 		for i, q := range qs {
 			ss[i] = F(q)
 		}
-		pv := []string{}
-		for p := 0; p < 3; p++ {
-			cp := append([]float64(nil), qs...)
-			rng.Shuffle(len(cp), func(a, b int) { cp[a], cp[b] = cp[b], cp[a] })
-			pv = append(pv, Bits(detect.ThresholdQ(cp)))
-		}
-		out.Emit(map[string]interface{}{"ev": "thresholdq", "qs": ss, "v": F(v), "vbits": Bits(v), "pv": pv})
+		ev := map[string]interface{}{"ev": "thresholdq", "qs": ss, "v": "NaN", "vbits": "", "pv": []string{}, "panic": false}
+		func() {
+			defer func() {
+				if p := recover(); p != nil {
+					ev["panic"] = true // a crash of the function under test is an observation, not a driver failure
+				}
+			}()
+			v := detect.ThresholdQ(qs)
+			pv := []string{}
+			for p := 0; p < 3; p++ {
+				cp := append([]float64(nil), qs...)
+				rng.Shuffle(len(cp), func(a, b int) { cp[a], cp[b] = cp[b], cp[a] })
+				pv = append(pv, Bits(detect.ThresholdQ(cp)))
+			}
+			ev["v"], ev["vbits"], ev["pv"] = F(v), Bits(v), pv
+		}()
+		out.Emit(ev)
 	}
 	return nil
 }
